@@ -22,9 +22,10 @@ Arms == {SkNoArm, [kind |-> "close", at |-> 0, sticky |-> FALSE]}
 
 Init == WSInit
 MayCall == impl.handle /\ (AppContinues \/ ~impl.anyErr)
+More == sink.ops <= MaxGroups                   \* bounds histories that keep calling after failures
 Next == \/ \E owned \in BOOLEAN, cap \in Caps, arm \in Arms : WSCreate(owned, cap, arm)
-        \/ MayCall /\ \E n \in 1..MaxRows : impl.rg + n <= MaxRows /\ WSWriteBatch(n)
-        \/ MayCall /\ impl.nrg + 1 < MaxGroups /\ WSNewRowGroup
+        \/ MayCall /\ More /\ \E n \in 1..MaxRows : impl.rg + n <= MaxRows /\ WSWriteBatch(n)
+        \/ MayCall /\ More /\ impl.nrg + 1 < MaxGroups /\ WSNewRowGroup
         \/ MayCall /\ WSClose
         \/ WSAbort
 Spec == Init /\ [][Next]_wsvars
